@@ -15,6 +15,8 @@ import (
 
 func init() {
 	register(&Property{ID: "C09", Run: runC09, Mutants: []Mutant{
+		{Name: "Chinese initialisers all numbered from a counter that is never stored", File: "internal/ssa/create.go", Old: "\t\t\t\tpkg.ninit++\n\t\t\t\tname = fmt.Sprintf(token.K_准备+\"#%d\", pkg.ninit)", New: "\t\t\t\tname = fmt.Sprintf(token.K_准备+\"#%d\", pkg.ninit+1)", Expect: "init-name-counter"},
+		{Name: "English initialisers numbered before the counter advances (first two collide with the Chinese scheme off by one)", File: "internal/ssa/create.go", Old: "\t\t\t\tpkg.ninit++\n\t\t\t\tname = fmt.Sprintf(token.K_init+\"#%d\", pkg.ninit)", New: "\t\t\t\tname = fmt.Sprintf(token.K_init+\"#%d\", pkg.ninit)", Expect: "init-name-counter"},
 		{Name: "SSA builder forgets the Chinese break", File: "internal/ssa/builder.go", Old: "case token.BREAK, token.Zh_跳出:", New: "case token.BREAK:", Expect: "bilingual-case-completeness"},
 		{Name: "type checker forgets the Chinese continue", File: "internal/types/stmt.go", Old: "case token.CONTINUE, token.Zh_继续:", New: "case token.CONTINUE:", Expect: "bilingual-case-completeness"},
 		{Name: "wz parser never recognises a three-index slice", File: "internal/parser/w2parser/parser_expr.go", Old: "if ncolons == 2 {", New: "if ncolons == N {", Expect: "parser-sibling-agreement"},
@@ -74,6 +76,9 @@ func runC09(c *Ctx) {
 		return
 	}
 	const r1, r2, r3 = "bilingual-case-completeness", "universe-bijection", "keyword-table"
+	if sp := p.MustPkg("init-name-counter", "internal/ssa"); sp != nil {
+		c09InitNameCounter(c, p, sp)
+	}
 	twinOf := map[string]string{}
 	for _, t := range c09Twins {
 		twinOf[t[0]] = t[1]
